@@ -21,6 +21,7 @@ package config
 
 //@ props C17 C19 C16
 //@ func ConfigProp.Read
+//@   pure
 //@   nopanic
 //@   requires aset(p.value)
 //@   ensures [C17] result == (aload(p.value).comittedValue.overwritten.some ? aload(p.value).comittedValue.overwritten.value : aload(p.value).comittedValue.value)
